@@ -42,7 +42,7 @@ class _Guard:
 
     def __init__(self, n_assets, expr_nodes=200):
         self.max_calls = 64 * (expr_nodes + 8) * (n_assets + 1) ** 2
-        self.max_list = 4 * MAX_LEGIT_LIST
+        self.max_list = MAX_LEGIT_LIST + 1
         self.calls = 0
         self.depth = 0
 
@@ -75,7 +75,7 @@ class _Guard:
         return False
 
 
-MAX_LEGIT_LIST = 5000
+MAX_LEGIT_LIST = 1000
 
 
 def cost_bound(L, nav_fanout, n_assets, expr, s=1, depth=0):
